@@ -214,6 +214,7 @@ SOURCE_TIES = {
  'C06': 'EpsieProps/C06Source.lean: Chain.clear and the scratch growth of BaseSampler.run as translated = Chain.clear / Chain.extendFor.',
  'C08': 'EpsieProps/C08Source.lean: BaseChain.__len__ and the index arithmetic / read set of Chain.__getitem__ as translated = Chain.len / Chain.getitem for every Python integer index.',
  'C09': 'EpsieProps/C09Source.lean + C09SourceApply.lean: sweep schedule, record and row indices, row count of the views, the row the annealer reads, and the apply block of swap_temperatures (one permutation for positions, stats, blobs, active sets; acceptance untouched; reset condition) as translated = the PTChain model.',
+ 'C11': 'EpsieProps/C11Source.lean: NestedTransdimensional._logpdf as translated (masked loops over the components) = Transdim.logqCode for all points and densities: index density + births iff dk > 0 + in-model densities of the components active on both sides, no term for the choice of components (the binomial factor of the true law is absent, as C11_code_ratio accounts for).',
  'C13': 'EpsieProps/C13Source.lean: the five _update methods as translated (window guards 1<=dk<T resp. 1<dk<T, scalar recursions) = PropSt.inWindow and the Adapt model formulas; direction lemmas proved directly on the translated code.',
  'C15': 'EpsieProps/C15Source.lean: BaseProposal.nsteps/_call_jump/update/jump/logpdf as translated = PropSt.nsteps/callJump/update and the copy / contribute-0 behaviour when not due.',
  'C17': 'EpsieProps/C17Source.lean: the ladder recursion of DynamicalAnnealer.__call__ as translated = Ladder.anneal; every intermediate level object is written with the ladder entry, end points untouched.',
